@@ -234,6 +234,8 @@ class Interp:
                 v = self.ev(st["e"], env, depth)
                 if not st["semi"]:
                     last = v
+            elif st.k == "item_stmt" and isinstance(st.get("item"), Node) and st["item"].k in ("use", "const"):
+                continue
             else:
                 raise NotPure("statement kind " + st.k)
         return last
